@@ -77,7 +77,13 @@ pub fn malformed_gen(depth: usize) -> Vec<(String, &'static str, bool)> {
     // a recorded finding, see `uppercase_empty_int`)
     for p in ["0b", "0o", "0x"] {
         for u in ["", "_", "__"] {
-            v.push((format!("{}{}", p, u), "empty_int", false));
+            // alone, and directly followed by what could continue a number
+            for follow in ["", ".", ".5", ".1e3", "e1", "E-2", "e", "z", "+1"] {
+                if p == "0x" && follow.starts_with(|c: char| c == 'e' || c == 'E') {
+                    continue; // `e` is a hexadecimal digit
+                }
+                v.push((format!("{}{}{}", p, u, follow), "empty_int", false));
+            }
         }
     }
     for p in ["0B", "0O", "0X"] {
